@@ -284,6 +284,7 @@ func init() {
 		Rule: "seq: random op sequences (1..40 ops, plus bursts of >300 failures) over 0..4 fake BalancingClients with scripted outcomes and pending counts: " +
 			"DoDeadline (public API, healthy/unhealthy via error or HealthCheck), get, calls on a fixed client, timer firings (decPenalty), AddClient, RemoveClients, pending changes; " +
 			"exhaustive (thorough): all sequences of <=5 ops over a 10-op alphabet on 2 clients; conc: G goroutines x K failing calls released together on one client (settled state); " +
+			"race: a call parked inside get()'s scan (gate in a scripted client's PendingRequests) while RemoveClients (+AddClient) run on another goroutine; the client served must be the first least-loaded member of the list before or after the change; " +
 			"timer: one real 3 s penalty timer; boundary: 294..301 sequential failures through the public API, then 2..8 failing calls parked together inside LBClient.HealthCheck (gate) so that they overlap exactly at maxPenalty, " +
 			"settled accounting checked at once (every failing call either armed a timer or was counted in total; penalty = timers armed), then the real timers run out: penalty must reach exactly 0, never exceed maxPenalty, and the client must be chosen again. non-trivial = >=2 routed calls and >=1 failure (seq) / contention above maxPenalty (conc); distinct = distinct input",
 		Parallel:   true,
@@ -394,6 +395,12 @@ func init() {
 						}
 						return Ok()
 					}}
+			case "race":
+				// args: cfg "id:pending,...", id of the client whose PendingRequests parks the scan, ids to remove "a,b", client to add "id:pending" or ""
+				if len(a) < 4 {
+					return nil
+				}
+				return c40Race(string(a[0]), string(a[1]), string(a[2]), string(a[3]))
 			case "boundary":
 				if len(a) < 2 {
 					return nil
@@ -447,6 +454,36 @@ func init() {
 		},
 		Gen: func(r *Rand, tier string, emit func(string, ...[]byte)) {
 			emit("timer")
+			// a call parked inside get()'s scan (in a client's PendingRequests) while RemoveClients / AddClient run
+			{
+				raceCfgs := []string{"0:5,1:0,2:3", "0:0,1:2,2:1", "0:3,1:3,2:0,3:1", "0:2,1:1", "0:1,1:4,2:2,3:0", "0:7,1:6,2:5,3:4"}
+				nr := 60
+				if tier == "thorough" {
+					nr = 600
+				}
+				emit("race", B("0:5,1:0,2:3"), B("0"), B("0"), B("3:4"))
+				emit("race", B("0:5,1:0,2:3"), B("0"), B("0"), B(""))
+				emit("race", B("0:0,1:2,2:1"), B("1"), B("0"), B(""))
+				for i := 0; i < nr; i++ {
+					cfg := raceCfgs[r.Intn(len(raceCfgs))]
+					n := strings.Count(cfg, ",") + 1
+					park := r.Intn(n)
+					var rm []string
+					for id := 0; id < n; id++ {
+						if r.Chance(40) {
+							rm = append(rm, strconv.Itoa(id))
+						}
+					}
+					if len(rm) == 0 {
+						rm = append(rm, strconv.Itoa(r.Intn(n)))
+					}
+					add := ""
+					if r.Chance(60) {
+						add = fmt.Sprintf("%d:%d", 7+r.Intn(2), r.Intn(6))
+					}
+					emit("race", B(cfg), N(park), B(strings.Join(rm, ",")), B(add))
+				}
+			}
 			// overlapping failing calls parked inside HealthCheck exactly at the cap, then the real timers run out
 			for _, bg := range [][2]int{{299, 3}, {298, 2}, {298, 4}, {300, 2}, {297, 3}, {299, 2}} {
 				emit("boundary", N(bg[0]), N(bg[1]))
@@ -715,6 +752,233 @@ func c40Boundary(base, g int) *Case {
 			}
 			if rep[0] != impl {
 				return Verdict{VCorr, "lb-settled", fmt.Sprintf("%s: impl (penalised, penalty) = %q, model %q", what, impl, rep[0])}
+			}
+			return Ok()
+		}}
+}
+
+// ---- membership change overlapping a call ------------------------------------------------------------------------
+
+type c40RaceWorld struct {
+	armed   atomic.Bool
+	parkID  int
+	parked  chan struct{}
+	release chan struct{}
+	served  atomic.Int64
+}
+
+type c40RaceClient struct {
+	w       *c40RaceWorld
+	id      int
+	pending int
+}
+
+func (c *c40RaceClient) DoDeadline(_ *fasthttp.Request, _ *fasthttp.Response, _ time.Time) error {
+	c.w.served.Store(int64(c.id))
+	return nil
+}
+
+func (c *c40RaceClient) PendingRequests() int {
+	if c.id == c.w.parkID && c.w.armed.CompareAndSwap(true, false) {
+		c.w.parked <- struct{}{}
+		<-c.w.release
+	}
+	return c.pending
+}
+
+type c40Member struct{ id, pending int }
+
+func c40ParseMembers(s string) ([]c40Member, bool) {
+	var out []c40Member
+	if s == "" {
+		return nil, true
+	}
+	for _, e := range strings.Split(s, ",") {
+		ip := strings.SplitN(e, ":", 2)
+		if len(ip) != 2 {
+			return nil, false
+		}
+		id, err1 := strconv.Atoi(ip[0])
+		p, err2 := strconv.Atoi(ip[1])
+		if err1 != nil || err2 != nil {
+			return nil, false
+		}
+		out = append(out, c40Member{id, p})
+	}
+	return out, true
+}
+
+// first least-loaded member (all penalties and totals are zero in this scenario); -1 for an empty list
+func c40FirstMin(ms []c40Member) int {
+	best := -1
+	for i, m := range ms {
+		if best < 0 || m.pending < ms[best].pending {
+			best = i
+		}
+	}
+	if best < 0 {
+		return -1
+	}
+	return ms[best].id
+}
+
+func c40Race(cfgS, parkS, rmS, addS string) *Case {
+	cfg, ok := c40ParseMembers(cfgS)
+	if !ok || len(cfg) == 0 {
+		return nil
+	}
+	parkID, err := strconv.Atoi(parkS)
+	if err != nil {
+		return nil
+	}
+	rm := map[int]bool{}
+	if rmS != "" {
+		for _, x := range strings.Split(rmS, ",") {
+			id, err := strconv.Atoi(x)
+			if err != nil {
+				return nil
+			}
+			rm[id] = true
+		}
+	}
+	add, ok := c40ParseMembers(addS)
+	if !ok || len(add) > 1 {
+		return nil
+	}
+	inCfg := false
+	for _, m := range cfg {
+		if m.id == parkID {
+			inCfg = true
+		}
+	}
+	if !inCfg {
+		return nil
+	}
+	w := &c40RaceWorld{parkID: parkID, parked: make(chan struct{}, 1), release: make(chan struct{})}
+	w.served.Store(-1)
+	lb := &fasthttp.LBClient{}
+	for _, m := range cfg {
+		lb.Clients = append(lb.Clients, &c40RaceClient{w: w, id: m.id, pending: m.pending})
+	}
+	var obs []string
+	var spec *Verdict
+	// lazy init + a first routing decision with nothing going on
+	idx0, _ := fasthttp.VerifLBGet(lb)
+	obs = append(obs, fmt.Sprintf("G:%d", idx0))
+	if idx0 < 0 || cfg[idx0].id != c40FirstMin(cfg) {
+		spec = &Verdict{VSpec, "chosen-not-minimal", fmt.Sprintf("get chose index %d of %v", idx0, cfg)}
+	}
+	// the call under test: parks inside the scan of get()
+	w.armed.Store(true)
+	type callRes struct {
+		err      error
+		panicked any
+	}
+	callDone := make(chan callRes, 1)
+	go func() {
+		var res callRes
+		defer func() {
+			if e := recover(); e != nil {
+				res.panicked = e
+			}
+			callDone <- res
+		}()
+		var req fasthttp.Request
+		var resp fasthttp.Response
+		res.err = lb.DoDeadline(&req, &resp, time.Now().Add(time.Second))
+	}()
+	select {
+	case <-w.parked:
+	case <-time.After(10 * time.Second):
+		close(w.release)
+		return nil
+	}
+	// membership change on another goroutine while the call is parked
+	type memRes struct{ nRemoved, nAdded int }
+	memDone := make(chan memRes, 1)
+	go func() {
+		var m memRes
+		m.nRemoved = lb.RemoveClients(func(c fasthttp.BalancingClient) bool { return rm[c.(*c40RaceClient).id] })
+		m.nAdded = -1
+		if len(add) == 1 {
+			m.nAdded = lb.AddClient(&c40RaceClient{w: w, id: add[0].id, pending: add[0].pending})
+		}
+		memDone <- m
+	}()
+	// it either finishes at once (nothing excludes it) or is waiting for the call to leave get(); give it a moment
+	var mem memRes
+	memFirst := false
+	select {
+	case mem = <-memDone:
+		memFirst = true
+	case <-time.After(30 * time.Millisecond):
+	}
+	close(w.release)
+	var call callRes
+	select {
+	case call = <-callDone:
+	case <-time.After(10 * time.Second):
+		return &Case{Judge: func([]string) Verdict {
+			return Verdict{VSpec, "call-never-returned", "a call overlapping RemoveClients/AddClient did not return within 10 s"}
+		}}
+	}
+	if !memFirst {
+		select {
+		case mem = <-memDone:
+		case <-time.After(10 * time.Second):
+			return &Case{Judge: func([]string) Verdict {
+				return Verdict{VSpec, "membership-change-never-returned", "RemoveClients/AddClient overlapping a call did not return within 10 s"}
+			}}
+		}
+	}
+	var after []c40Member
+	for _, m := range cfg {
+		if !rm[m.id] {
+			after = append(after, m)
+		}
+	}
+	after = append(after, add...)
+	served := int(w.served.Load())
+	what := fmt.Sprintf("members %v; a call was parked in the scan of get() (PendingRequests of client %d) while RemoveClients(%q) and AddClient(%q) ran (they %s before the call resumed); members afterwards %v; the call was served by client %d (err %v)",
+		cfg, parkID, rmS, addS, map[bool]string{true: "completed", false: "had not completed"}[memFirst], after, served, call.err)
+	switch {
+	case call.panicked != nil:
+		if spec == nil {
+			spec = &Verdict{VSpec, "call-panicked", fmt.Sprintf("the call panicked: %v; %s", call.panicked, what)}
+		}
+		obs = append(obs, "D:panic")
+	case served < 0:
+		// allowed only if the call took effect after the change and no member is left
+		if spec == nil && (len(after) != 0 || !errors.Is(call.err, fasthttp.ErrNoAvailableClients)) {
+			spec = &Verdict{VSpec, "no-client-called", what}
+		}
+		obs = append(obs, "D:noclients")
+	default:
+		// the call is ordered entirely before or entirely after the membership change
+		if spec == nil && served != c40FirstMin(cfg) && served != c40FirstMin(after) {
+			spec = &Verdict{VSpec, "chosen-not-minimal-among-members", fmt.Sprintf("%s: the first least-loaded member is client %d before and client %d after the change", what, c40FirstMin(cfg), c40FirstMin(after))}
+		}
+		obs = append(obs, fmt.Sprintf("D:%d:ok", served))
+	}
+	obs = append(obs, fmt.Sprintf("R:%d", mem.nRemoved))
+	toks := [][]byte{B("e"), B(cfgS), B("G"), B("D1"), B("R" + rmS)}
+	if len(add) == 1 {
+		obs = append(obs, fmt.Sprintf("A:%d", mem.nAdded))
+		toks = append(toks, B(fmt.Sprintf("A%d,%d", add[0].id, add[0].pending)))
+	}
+	var snap []string
+	for _, c := range fasthttp.VerifLBClients(lb) {
+		snap = append(snap, fmt.Sprintf("%d/%d/%d", fasthttp.VerifLBWrapped(c).(*c40RaceClient).id, fasthttp.VerifLBPenalty(c), fasthttp.VerifLBTotal(c)))
+	}
+	obs = append(obs, "S:"+strings.Join(snap, ","))
+	impl := strings.Join(obs, ";")
+	return &Case{Lines: []string{Line("lbseq", toks...)}, Impl: impl, Nontrivial: len(cfg) >= 2, Tags: []string{"race"},
+		Judge: func(rep []string) Verdict {
+			if spec != nil {
+				return *spec
+			}
+			if rep[0] != impl {
+				return Verdict{VCorr, "lb-race", fmt.Sprintf("impl %q, model (call then membership change, each atomic) %q; %s", impl, rep[0], what)}
 			}
 			return Ok()
 		}}
